@@ -1167,10 +1167,10 @@ fn state_case(g: &mut Gen, cfg: &PicCfg) -> Verdict {
     let phi = g.range(1, 12) as u16;
     let (w, h) = ((pwi as usize + 1) * 4, phi as usize * 4);
     let mut p = base_plus();
-    // optional modes that leave the decoding of this harness's pictures alone: Reference Picture
-    // Selection (TRPI = 0: predict from the previous picture), Deblocking Filter and Independent
-    // Segment Decoding mode bits (the tree does not act on either)
-    let mode_bits: u32 = (if g.chance(1, 2) { 1 << 3 } else { 0 }) | (if g.chance(1, 3) { 1 << 5 } else { 0 }) | (if g.chance(1, 3) { 1 << 2 } else { 0 });
+    // an optional mode that leaves the decoding of this harness's pictures alone: Reference
+    // Picture Selection with TRPI = 0 (predict from the previous picture) - where the tree accepts
+    // the mode at all (see gen_pic::optional_modes_accepted)
+    let mode_bits: u32 = if g.chance(1, 2) && optional_modes_accepted().1 { 1 << 3 } else { 0 };
     p.opp = Opp::from_mode_bits(6, false, mode_bits);
     p.rpsmf = 4 + g.below(4) as u8;
     p.trp = None;
@@ -1237,7 +1237,7 @@ fn state_case(g: &mut Gen, cfg: &PicCfg) -> Verdict {
     };
     let mut l: Labels = vec!["state: PLUSPTYPE custom format, then format-less P"];
     if mode_bits != 0 {
-        l.push("state: history with OPPTYPE modes in force (RPS / DF / ISD)");
+        l.push("state: history with an OPPTYPE mode (RPS) in force");
     }
     if n_p >= 2 {
         l.push("state: two or more format-less P pictures in a row");
